@@ -18,7 +18,7 @@ decoders and is decided by search (streams `msgfuzz`, `artfuzz`) plus an audited
   decoders (`PeerAddress::V6`: four `u32` words shifted into a `u128`) cannot overflow
   (`peeraddress_bits_fit_u128`).
 * **panic inventory**: `Gen/PanicSitesC09.lean` is regenerated on every run from the anchored
-  hand-written decoder files (`lib/scan_panics.py`: unwrap / expect / panic!-family / assert /
+  hand-written decoder files (`lib/scan_panics_c09.py`: unwrap / expect / panic!-family / assert /
   indexing / slicing / copy_from_slice / arithmetic); `panic_sites_all_audited` holds only while every
   site has an entry in the audited allow-list `lib/panic_audit_C09.json` — a new site breaks the
   check until it is audited.
